@@ -7,3 +7,5 @@ def check(rep, tier):
     tracer_ftba.run(rep, tier, clauses=("FT1", "FT2", "FT3"))
     tracer_primitive.run(rep, tier)
     tracer_trace.run(rep, tier)
+    from contracts import programs_exact
+    programs_exact.run_nest(rep)
